@@ -34,18 +34,18 @@ type Stats struct {
 // Solver drives one incremental SMT process over a pipe. Terms are sent once
 // as (define-fun tN ...) under :global-declarations, so they survive pops.
 type Solver struct {
-	Kind    string // "z3", "z3-old", "cvc5"
-	ctx     *Ctx
-	cmd     *exec.Cmd
-	in      io.WriteCloser
-	out     *bufio.Reader
-	defined map[int]bool
-	depth   int
-	asserts [][]*Term // per level, for restart
-	Stats   Stats
-	Log     io.Writer // optional transcript (SMT-LIB2)
-	LastErr string
-	lines   chan string
+	Kind       string // "z3", "z3-old", "cvc5"
+	ctx        *Ctx
+	cmd        *exec.Cmd
+	in         io.WriteCloser
+	out        *bufio.Reader
+	defined    map[int]bool
+	depth      int
+	asserts    [][]*Term // per level, for restart
+	Stats      Stats
+	Log        io.Writer // optional transcript (SMT-LIB2)
+	LastErr    string
+	lines      chan string
 	pendingPop bool
 }
 
@@ -352,7 +352,13 @@ func (s *Solver) Check(timeout time.Duration, extra ...*Term) Result {
 		}
 	}
 	t0 := time.Now()
-	defer func() { s.Stats.SolverNS += time.Since(t0).Nanoseconds() }()
+	defer func() {
+		d := time.Since(t0)
+		s.Stats.SolverNS += d.Nanoseconds()
+		if slowQ && d > 300*time.Millisecond {
+			fmt.Fprintf(os.Stderr, "SLOWQ check #%d %v extra=%d\n", s.Stats.Queries, d, len(extra))
+		}
+	}()
 	s.Stats.Queries++
 	ms := int(timeout / time.Millisecond)
 	if s.Kind == "cvc5" {
@@ -421,7 +427,17 @@ func (s *Solver) restartKeep() {
 
 // Model fetches values for vars after a Sat answer. Always call DropModel
 // (or Model) after a Sat Check with extra assumptions before anything else.
+var slowQ = os.Getenv("GOSYM_SLOWQ") != ""
+
 func (s *Solver) Model(vars []*Term) map[*Term]*Term {
+	if slowQ {
+		t0 := time.Now()
+		defer func() {
+			if d := time.Since(t0); d > 300*time.Millisecond {
+				fmt.Fprintf(os.Stderr, "SLOWQ model %v vars=%d\n", d, len(vars))
+			}
+		}()
+	}
 	m := map[*Term]*Term{}
 	defer s.DropModel()
 	var ask []*Term
